@@ -14,6 +14,8 @@ import (
 	"fmt"
 	"io"
 	"net"
+	"os"
+	"os/exec"
 	"strconv"
 	"strings"
 	"sync"
@@ -42,10 +44,13 @@ type Case struct {
 var scenarios = []string{"ok", "err", "drop", "drop-retry", "loading-retry", "stall", "slowread", "precancel"}
 
 func genCase(r *gen.Rand, i int) any {
-	if k := i % (len(scenarios) + len(cachedCombos)); k >= len(scenarios) {
+	total := len(scenarios) + len(cachedCombos) + len(clusterCombos)
+	if k := i % total; k >= len(scenarios)+len(cachedCombos) {
+		return genCluster(r, k-len(scenarios)-len(cachedCombos))
+	} else if k >= len(scenarios) {
 		return genCached(r, k-len(scenarios))
 	}
-	i = i % (len(scenarios) + len(cachedCombos))
+	i = i % total
 	return Case{Scenario: scenarios[i%len(scenarios)], Pinned: r.Chance(1, 4), Multi: r.Chance(1, 3), Write: r.Chance(1, 3),
 		Val: string(r.Bytes(r.Range(1, 40)))}
 }
@@ -63,9 +68,11 @@ type server struct {
 	received         [][]string                     // complete test commands received (first token GET/SET)
 	behave           func(conn int, nth int) string // for the nth test command on connection conn: ok | err | drop | loading | stall
 	conns            int
-	blockWritesUntil time.Time  // the client's writes do not get through before this instant
-	resp3            bool       // answer HELLO 3 (client-side caching needs RESP3)
-	all              [][]string // every frame received, in order (one connection in the cached scenarios)
+	blockWritesUntil time.Time      // the client's writes do not get through before this instant
+	resp3            bool           // answer HELLO 3 (client-side caching needs RESP3)
+	cluster          bool           // a one-node cluster owning every slot (CLUSTER SLOTS), HELLO without a version
+	execs            map[string]int // INCR executions per key
+	all              [][]string     // every frame received, in order (one connection in the cached scenarios)
 	armed            atomic.Bool
 	gate             chan struct{} // closed to release the writes held while armed
 	entered          chan struct{} // signalled when a write is being held
@@ -207,8 +214,14 @@ func (s *server) got() [][]string {
 
 func run(ci any) (res obs.Result) {
 	c := ci.(Case)
-	if c.Scenario == "cached" {
-		return runCached(c)
+	if c.Scenario == "cached" || c.Scenario == "cluster" {
+		if os.Getenv("OBS_RECYCLE_CHILD") == "" {
+			return runInChild(c)
+		}
+		if c.Scenario == "cached" {
+			return runCached(c)
+		}
+		return runCluster(c)
 	}
 	res.Kind = c.Scenario
 	res.Site, res.Class = "client.go:Do/DoMulti", "early-recycle"
@@ -373,6 +386,48 @@ func run(ci any) (res obs.Result) {
 			return
 		}
 	}
+	return
+}
+
+// runInChild runs one case in a child process (this binary with -replay): a use-after-recycle can crash the client's
+// background goroutines (nil command in the writer), which no recover() in this process could catch; the crash is then
+// reported as an oracle failure of exactly this case.
+func runInChild(c Case) (res obs.Result) {
+	res.Kind = c.Scenario + "-" + c.Op + "-" + c.Mode
+	res.Site, res.Class = "pipe.go/cluster.go:background writer", "crash"
+	res.Sig = fmt.Sprint(c.Scenario, c.Op, c.Mode, c.View, c.Pinned, len(c.Keys))
+	raw, _ := json.Marshal(map[string]any{"desc": c})
+	f, err := os.CreateTemp("", "obs_recycle_case_*.json")
+	if err != nil {
+		res.Oracle, res.Class = "cannot write the case file: "+err.Error(), "harness"
+		return
+	}
+	defer os.Remove(f.Name())
+	f.Write(raw)
+	f.Close()
+	cmd := exec.Command(os.Args[0], "-replay", f.Name())
+	cmd.Env = append(os.Environ(), "OBS_RECYCLE_CHILD=1")
+	var stderr strings.Builder
+	cmd.Stderr = &stderr
+	out, runErr := cmd.Output()
+	for _, line := range strings.Split(string(out), "\n") {
+		var rec struct {
+			K string `json:"k"`
+			obs.Result
+		}
+		if json.Unmarshal([]byte(line), &rec) == nil && rec.K == "case" {
+			return rec.Result
+		}
+	}
+	tail := stderr.String()
+	if i := strings.Index(tail, "goroutine "); i > 0 {
+		tail = tail[:i]
+	}
+	if len(tail) > 400 {
+		tail = tail[:400]
+	}
+	res.Nontrivial = true
+	res.Oracle = fmt.Sprintf("the client crashed while serving this case (%v): %s", runErr, strings.TrimSpace(tail))
 	return
 }
 
